@@ -4,3 +4,4 @@ import L21.Props.C10
 #print axioms L21.Gds.tokenize_fuel_mono
 #print axioms L21.Gds.c10_needs_endlib
 #print axioms L21.Gds.c10_total
+#print axioms L21.Gds.c10_parser_fuel
